@@ -26,7 +26,8 @@ struct Cfg {
     logfile: bool,
     /// 0 none, 1 positional, 2 --symbols-path, 3 --symbols-url (a loopback server that answers 404, the first
     /// request after `delay_ms`), 4 --symbols-path <empty directory> + the symbol directory positional,
-    /// 5 --symbols-path <symbol directory> + an empty directory positional
+    /// 5 --symbols-path <symbol directory> + an empty directory positional,
+    /// 6 --symbols-path <a path with a comma and a blank in it that leads to the symbol directory>
     symmode: u8,
     no_interactive: bool,
     delay_ms: u64,
@@ -34,7 +35,7 @@ struct Cfg {
 impl Cfg {
     fn json(&self) -> Value {
         json!({"mode": MODES[self.mode], "brief": self.brief, "pretty": self.pretty, "features": FEATURES[self.feat], "output_file": self.outfile, "log_file": self.logfile,
-               "symbols": (["none", "positional", "--symbols-path", "--symbols-url (404 server)", "--symbols-path EMPTY + positional", "--symbols-path + positional EMPTY"][self.symmode as usize]), "no_interactive": self.no_interactive, "first_answer_delayed_ms": self.delay_ms})
+               "symbols": (["none", "positional", "--symbols-path", "--symbols-url (404 server)", "--symbols-path EMPTY + positional", "--symbols-path + positional EMPTY", "--symbols-path with a comma and a blank in it"][self.symmode as usize]), "no_interactive": self.no_interactive, "first_answer_delayed_ms": self.delay_ms})
     }
     fn human(&self) -> bool {
         matches!(self.mode, 0 | 1 | 3)
@@ -406,6 +407,12 @@ fn run_cfg(sh: &Shared, ii: usize, cfg: &Cfg, l: &mut Local) {
         args.push("--symbols-path".into());
         args.push(empty_dir.display().to_string());
     }
+    if cfg.symmode == 6 {
+        let odd = tmp.path().join("symbols, second copy");
+        std::os::unix::fs::symlink(SYMS, &odd).expect("symlink");
+        args.push("--symbols-path".into());
+        args.push(odd.display().to_string());
+    }
     // a report file that already exists (left by an earlier, longer report) is REPLACED, not written over in place
     if cfg.outfile {
         std::fs::write(&of, vec![b'Z'; 300_000]).expect("pre-existing output file");
@@ -608,7 +615,7 @@ fn main() {
             }
             // both spellings of a symbol directory in one command line (one of them names an empty directory)
             for mode in 0..4 {
-                for symmode in [4u8, 5] {
+                for symmode in [4u8, 5, 6] {
                     for (brief, pretty) in [(false, false), (true, false), (false, true)] {
                         let c = Cfg { mode, brief, pretty, feat: 0, outfile: false, logfile: false, symmode, no_interactive: true, delay_ms: 0 };
                         if !c.invalid() {
